@@ -35,5 +35,5 @@ func VerifC07FetchBlob(input OmegaInput) ([]byte, bool) {
 
 // VerifC07Heap reads the unexported heap pointer of an inner machine's memory; VerifC07NewMemory builds an empty
 // guest memory (heap pointer and limit 0) for the outer machine of the inner-machine stream.
-func VerifC07Heap(m *Memory) uint64 { return m.heapPointer }
+func VerifC07Heap(m *Memory) uint64 { hp, _ := verifHeap(m); return hp }
 func VerifC07NewMemory() *Memory    { return &Memory{Pages: make(map[uint32]*Page)} }
